@@ -194,7 +194,7 @@ struct Interp {
         { std::ofstream o(dir + "/deep.cfg", std::ios::binary); o << kMagic; for (int k = 0; k < 45; k++) o << "begin main\n"; o << "deep text\n"; }
         bool live = false, included = false;
         int cycles = 0;
-        long nctx = 0;
+        long nctx = 0, nbi = 0;
         std::map<std::string, std::string> vars;
         for (size_t at = 0; at < c.size(); at++) {
             const Op &op = c[at];
@@ -202,7 +202,7 @@ struct Interp {
             ht_set_tag((int)at);
             if (op.name == "init") {
                 if (live) continue;
-                LA(cf_init()); live = true; vars.clear(); cycles++; nctx = 0;
+                LA(cf_init()); live = true; vars.clear(); cycles++; nctx = 0; nbi = 0;
                 if (cycles >= 2) ctx.label("second-cycle");
                 VT_CHECK(ctx, cf_stack(0) == 0 && cf_fstate_idx() == 0, "mismatch", "state-left-behind; a freshly initialised subsystem starts with context depth " << cf_stack(0) << " and file stack index " << cf_fstate_idx() << " (cycle " << cycles << ")");
                 continue;
@@ -213,7 +213,10 @@ struct Interp {
                 if (nctx + n > 250) { ctx.label("skipped:more-than-250-contexts"); continue; }
                 nctx += n;
                 for (long i = 0; i < n && i < 250; i++) { std::string nm = (i == 0 ? std::string("main") : "c" + std::to_string(at) + "_" + std::to_string(i)); LA(cf_register(nm.c_str(), i < 31 ? (int)i : 99)); } if (n > 20) ctx.label("context-table-grew"); }
-            else if (op.name == "regbi") { long n = op.i(0); for (long i = 0; i < n && i < 40; i++) { std::string nm = "b" + std::to_string(at) + "_" + std::to_string(i); LA(cf_register_builtin(nm.c_str())); } if (n >= 4) ctx.label("builtin-table-grew"); }
+            else if (op.name == "regbi") { long n = op.i(0);
+                // built-in ids are unsigned char as well: stay below 250 per cycle (the seven standard ones included)
+                if (nbi + n > 240) { ctx.label("skipped:more-than-240-builtins"); continue; }
+                nbi += n; for (long i = 0; i < n && i < 40; i++) { std::string nm = "b" + std::to_string(at) + "_" + std::to_string(i); LA(cf_register_builtin(nm.c_str())); } if (n >= 4) ctx.label("builtin-table-grew"); }
             else if (op.name == "parse") {
                 bool inc = op.i(0) == 1, deep = op.i(0) == 2;
                 LA(cf_parse(deep ? "deep.cfg" : inc ? "inc.cfg" : "a.cfg", nullptr, nullptr));
